@@ -69,6 +69,10 @@ def run(res, tier, seed, replay):
                           f"analyze_unsolvable differ from the model's or a side condition of C02_unsolvable_core_refutes fails: "
                           f"{r.get('unsolv')}; the verdict itself agrees with the reference",
                           dict(tc.trace_replay(r), unsolv=r.get("unsolv")))
+        if k == "sat" and "trace" in r and r["trace"].get("run") and not r["trace"].get("lenient"):
+            res.tie_break(f"the final assignment of a run that returned a solution is rejected by the verified checker "
+                          f"(check_sat_log_lenient: some clause of the database is not satisfied) in {r['stream']}: {r['trace']}",
+                          tc.trace_replay(r))
         if k == "sat" and want is False:
             res.violation(key, f"solver returned {r['obs']['outcome']['sat']} but no valid selection exists in {r['stream']}",
                           ss.replay_obj(r))
